@@ -55,22 +55,6 @@ fn c11_xor_reader_any_offset() {
 }
 
 // ---- C12: AuxPoW sections ---------------------------------------------------------------------------
-fn merkle_branch(rng: &mut Rng, n: usize) -> Vec<u8> {
-    let mut v = compact(n as u64);
-    for _ in 0..n { v.extend(rng.bytes(32)); }
-    v.extend_from_slice(&(rng.next() as u32).to_le_bytes());
-    v
-}
-fn aux_section(rng: &mut Rng, segwit_coinbase: bool, n1: usize, n2: usize) -> Vec<u8> {
-    let mut cb = TxSpec::new(vec![TxIn::coinbase(rng.next() as u32)], vec![TxOut::new(25_0000_0000, p2pkh_script(&[3; 20])), TxOut::new(0, vec![0x6a, 0x24, 0xaa, 0x21, 0xa9, 0xed])]);
-    cb.inputs[0].script_sig = rng.bytes(60);
-    if segwit_coinbase { cb.witness = Some(vec![vec![vec![0u8; 32]]]); }
-    let mut v = cb.ser();
-    v.extend(rng.bytes(32));                       // parent block hash
-    v.extend(merkle_branch(rng, n1)); v.extend(merkle_branch(rng, n2));
-    v.extend(rng.bytes(80));                       // parent header
-    v
-}
 /// C12 (bounded: versions below / at / above the thresholds incl. versions with bit 8 clear; branch lengths 0..=33;
 /// legacy and segwit parent coinbase; all 8 coins): the AuxPoW section is consumed exactly iff required
 #[test]
